@@ -35,6 +35,7 @@ type wcfg struct {
 	G        int    `json:"goroutines"`
 	Ops      int    `json:"ops_per_goroutine"`
 	LongRun  bool   `json:"spans_a_probe_tick"`
+	Quiet    bool   `json:"quiet_period_then_traffic,omitempty"`
 	Seed     int64  `json:"script_seed"`
 }
 
@@ -63,6 +64,14 @@ func runWorkload(t *testing.T, c wcfg, overlap *[len14]int64) string {
 	l, err := lab.NewSocketLab(c.Strategy, lab.SocketOpts{Backends: 3, Mutate: func(cfg *config.Config) {
 		if c.Breaker {
 			cfg.CircuitBreaker = config.CircuitBreakerConfig{Enabled: true, FailureThreshold: 3, SuccessThreshold: 1, MaxRequests: 2, IntervalSeconds: 60, TimeoutSeconds: 1}
+			if c.Quiet {
+				// the counting window is shorter than the quiet period; in half of these workloads the threshold is out of
+				// reach, so that the breaker is still CLOSED with failures on record when the traffic resumes
+				cfg.CircuitBreaker.IntervalSeconds = 1
+				if c.Seed%2 == 0 {
+					cfg.CircuitBreaker.FailureThreshold = 100000
+				}
+			}
 		}
 		if c.Limiter {
 			cfg.RateLimit = config.RateLimitConfig{Enabled: true, MaxTokens: 5, RefillRate: 1}
@@ -192,6 +201,44 @@ func runWorkload(t *testing.T, c wcfg, overlap *[len14]int64) string {
 		time.Sleep(2100 * time.Millisecond) // let Helios's own 2 s probe ticker fire while everything else runs
 	}
 	wg.Wait()
+	if c.Quiet {
+		// a quiet period longer than every configured interval (breaker interval and timeout, unhealthy
+		// windows, limiter refill, pool idle timeout: 1 s each), then traffic again: the paths that
+		// expire stale state run concurrently with requests, metrics reads and admin listings
+		time.Sleep(1150 * time.Millisecond)
+		var stuck atomic.Value
+		var wg2 sync.WaitGroup
+		for g := 0; g < 8; g++ {
+			wg2.Add(1)
+			go func(g int) {
+				defer wg2.Done()
+				for i := 0; i < 3; i++ {
+					switch {
+					case g == 7:
+						rec := httptest.NewRecorder()
+						l.LB.GetMetricsCollector().MetricsHandler()(rec, httptest.NewRequest("GET", "/metrics", nil))
+						adminCall("GET", "/v1/backends", nil)
+					default:
+						id := l.NextCase()
+						for _, b := range l.Backends {
+							b.Expect(id, script([]string{"req-good", "req-good", "req-5xx"}[(g+i)%3]))
+						}
+						out, err := lab.Do(l.Addr, &lab.RawRequest{Method: "GET", Target: "/after-quiet", Framing: "none", Header: []lab.KV{{K: "Host", V: "h"},
+							{K: "X-Verif-Case", V: id}, {K: "X-Forwarded-For", V: fmt.Sprintf("10.4.%d.%d", g, i)}}}, 10*time.Second)
+						l.ForgetAll(id)
+						// every backend answers at once (or refuses): a request that gets no response at all within 10 s is stuck inside Helios
+						if err != nil && (out == nil || out.Status == 0) && (strings.Contains(err.Error(), "timeout") || strings.Contains(err.Error(), "deadline")) {
+							stuck.Store(fmt.Sprintf("after a quiet period of 1.15 s a request got no response within 10 s (%v): request processing is blocked", err))
+						}
+					}
+				}
+			}(g)
+		}
+		wg2.Wait()
+		if v := stuck.Load(); v != nil {
+			return v.(string)
+		}
+	}
 	if p := l.PanicLines(); len(p) > 0 {
 		return "handler panic: " + strings.Join(p, " | ")
 	}
@@ -202,7 +249,7 @@ const len14 = 14
 
 func TestC12ConcurrentWorkloads(t *testing.T) {
 	sub := lab.Sub("concurrent-workloads", "all 5 strategies x 2^6 on/off combinations of breaker, limiter, passive checks, active checks, websocket pool, plugin chain (logging, request-id, size_limit, gzip, headers + request/trace IDs) are cycled (320 configurations); for each a workload of 8-64 goroutines x 6-20 operations over "+
-		"{request to good/5xx/aborting/unreachable backend over real sockets, admin add/remove/set_strategy/list, /metrics, /health, MarkBackendUnhealthy, IsBackendHealthy, pool put/get/close/stats, Stop} with scripts derived from VERIF_SEED; "+
+		"{request to good/5xx/aborting/unreachable backend over real sockets, admin add/remove/set_strategy/list, /metrics, /health, MarkBackendUnhealthy, IsBackendHealthy, pool put/get/close/stats, Stop} with scripts derived from VERIF_SEED; one configuration in eight (with breaker, passive checks or limiter on; breaker interval 1 s there) continues after a quiet period of 1.15 s - longer than every configured interval - with a second wave of requests, metrics reads and listings; "+
 		"binary built with -race; oracle: no race report with any frame, no handler panic, no fatal error, every workload returns (20 s no-progress watchdog); every workload is non-trivial (>=3 operation kinds incl. mutating ones); distinct = distinct (configuration, goroutines, ops, seed)")
 	lab.Assume("the race detector decides only the interleavings that were executed (their happens-before class); L2 handler composition replicates cmd/helios/server.go")
 	if lab.Replaying() {
@@ -223,12 +270,16 @@ func TestC12ConcurrentWorkloads(t *testing.T) {
 				c := wcfg{Strategy: s, Breaker: mask&1 != 0, Limiter: mask&2 != 0, Passive: mask&4 != 0, Active: mask&8 != 0, WSPool: mask&16 != 0, Plugins: mask&32 != 0,
 					G: []int{8, 16, 32, 64}[(idx+r)%4], Ops: 6 + (idx*7+r)%15, Seed: int64(lab.Seed()%1000003)*1000 + int64(idx)}
 				c.LongRun = c.Active && (idx+si)%16 == 0
+				c.Quiet = (c.Breaker || c.Passive || c.Limiter) && (idx+si)%8 == 3
 				name := fmt.Sprintf("%s-m%02d-r%d", s, mask, r)
 				var v string
 				ok := t.Run(name, func(t *testing.T) { v = runWorkload(t, c, &overlap) })
 				labels := []string{s}
 				if c.LongRun {
 					labels = append(labels, "spans-probe-tick")
+				}
+				if c.Quiet {
+					labels = append(labels, "quiet-period-then-traffic")
 				}
 				sub.Case(c, true, labels...)
 				// keep going after a failure: one run should show every distinct race
